@@ -7,6 +7,7 @@ package main
 
 import (
 	"encoding/json"
+	"errors"
 	"flag"
 	"fmt"
 	"strconv"
@@ -219,6 +220,21 @@ func runResolveCase(c *expCase) []*resObs {
 	aims = append(aims, aim{0, "s", "#/info/title/deeper"})
 
 	var out []*resObs
+	// a root supplied only through a location at which there is no document: whatever the reference, even one
+	// to the document itself, there is nothing to designate
+	for _, ref := range []string{"#", "", "#/definitions/X", "deadroot.json", "deadroot.json#/definitions/X"} {
+		for k, kind := range []string{"s", "p", "r", "i"} {
+			if (k+c.Rot+len(ref))%2 == 0 {
+				o := &resObs{Case: c.Case, Layout: c.Layout, Rot: c.Rot, Mode: "location", API: "WithBase:deadroot", Kind: kind, RefS: ascii(ref),
+					Target: 0, Docs: docs, Nodes: p.nodes, Abstract: c.Nodes, Concrete: concrete, DocURLs: urls,
+					Names: c.Names, Spell: c.Spell, Site: c.Site, RootSame: true}
+				o.Ref, _ = parseAURL(ref)
+				dead := cc.urls[0][:strings.LastIndex(cc.urls[0], "/")+1] + "deadroot.json"
+				callResolve(o, ref, dead, docBytes)
+				out = append(out, o)
+			}
+		}
+	}
 	for _, am := range aims {
 		for _, mode := range []string{"typed", "generic", "location"} {
 			apis := []string{"WithBase"}
@@ -250,6 +266,10 @@ func callResolve(o *resObs, refS, rootURL string, docBytes map[string][]byte) {
 	}()
 	ld := &recLoader{docs: docBytes, refuse: map[string]bool{}}
 	opts := &spec.ExpandOptions{RelativeBase: rootURL, PathLoader: ld.load, ContinueOnError: o.API == "WithBase:cont"}
+	if o.API == "WithBase:deadroot" && (o.Case+len(refS))%2 == 0 {
+		// the loader fails outright rather than reporting a missing document
+		opts.PathLoader = func(string) (json.RawMessage, error) { return nil, errors.New("loader: network unreachable") }
+	}
 	var root interface{}
 	switch o.Mode {
 	case "typed":
